@@ -187,6 +187,7 @@ class C08(CheckBase):
         paddr = (worldb.PROVIDER_IP, prov._http_server.server_port)
         base = f'http://{paddr[0]}:{paddr[1]}'
         modes = {}  # subscription k -> behaviour
+        stalls_seen = []  # subscriptions whose endpoint was told to stall (deliveries then block up to the socket timeout)
 
         def behaviour(rec):
             path = rec.msg.path or ''
@@ -346,7 +347,10 @@ class C08(CheckBase):
                     was_dead_for = s.now - (sub.t_resp + sub.granted)
                 r, t_req, t_resp = mgr_request(sub, kind, op.get('expires'))
                 ok = r.status == 200 and not r.is_fault
-                if was_dead_for is not None and was_dead_for > GRACE and ok and not sub.failures:
+                # (housekeeping removes expired / unsubscribed subscriptions within GRACE - unless a delivery is stalled:
+                # a sender that waits for a silent peer can keep the subscription table busy up to the socket timeout)
+                grace = GRACE + (3 * (int(plan['world']['max_subscription_duration'] * 1.2) + 1) if stalls_seen else 0)
+                if was_dead_for is not None and was_dead_for > grace and ok and not sub.failures:
                     ctx.violation('C08.unknown', f'{kind}:answered-for-dead-subscription:{dead}',
                                   f'{kind} for a subscription that is {dead} since {was_dead_for:.2f}s was answered '
                                   f'successfully')
@@ -414,6 +418,8 @@ class C08(CheckBase):
                 if old and old[0] == 'refuse':
                     w.net.refuse.discard(eps_[sub.owner].addr)
                 modes[sub.k] = mode
+                if mode[0] in ('stall', 'close'):
+                    stalls_seen.append(sub.k)
                 if mode[0] == 'refuse':
                     w.net.refuse.add(eps_[sub.owner].addr)
             elif k == 'heal':
